@@ -6,6 +6,7 @@ import (
 	"net"
 	"os"
 	"strings"
+	"sync"
 	"testing"
 	"time"
 
@@ -207,6 +208,14 @@ func record(c *chainCase, partName string) {
 	if c.Send >= 2 {
 		add("send-filters>=2")
 	}
+	for r := range c.Reqs {
+		if c.Reqs[r].UpRetry && c.RetryOn && simulate(c, r, "t", modeContinue).Outcome == "up" {
+			add("upstream-response-retried")
+			if c.Send >= 1 {
+				add("upstream-response-retried:with-send-filters")
+			}
+		}
+	}
 	if c.Pipelined && len(c.Reqs) > 1 {
 		add("pipelined")
 	}
@@ -268,26 +277,58 @@ func runCase(t ev.TB, c *chainCase, partName string) {
 // consistent if either reading of that verdict explains what happened.
 func evaluate(c *chainCase, tokens []string, obs []observed) *failure {
 	for r := range obs {
-		a := simulate(c, r, tokens[r], modeContinue)
-		f := judge(c, r, &a, &obs[r])
-		if f == nil {
+		retry := c.Reqs[r].UpRetry && c.RetryOn
+		// the readings the property leaves open: a misplaced re-match/re-choose counts as continue or ends the pass;
+		// a retried (discarded) upstream response is or is not shown to the send filters
+		variants := func(mode int) []expect {
+			base := simulate(c, r, tokens[r], mode)
+			if retry && base.Outcome == "up" {
+				return []expect{retried(c, r, tokens[r], base, true), retried(c, r, tokens[r], base, false)}
+			}
+			return []expect{base}
+		}
+		as := variants(modeContinue)
+		var first *failure
+		ok := false
+		for i := range as {
+			f := judge(c, r, &as[i], &obs[r])
+			if f == nil {
+				ok = true
+				break
+			}
+			if first == nil {
+				first = f
+			}
+		}
+		if ok {
 			continue
 		}
-		b := simulate(c, r, tokens[r], modeEndPass)
-		if a.Misplaced == 0 && b.Misplaced == 0 {
-			return f
+		b0 := simulate(c, r, tokens[r], modeEndPass)
+		if as[0].Misplaced == 0 && b0.Misplaced == 0 {
+			if as[0].Retried {
+				return &failure{"retried-response:" + first.sig, "the first upstream response (503) was retried and the second attempt answered 200: the delivered response passes every send filter once, in order (the discarded one may or may not be shown to them)\n" + first.msg}
+			}
+			return first
 		}
-		if judge(c, r, &b, &obs[r]) == nil {
+		for _, b := range variants(modeEndPass) {
+			b := b
+			if judge(c, r, &b, &obs[r]) == nil {
+				ok = true
+				break
+			}
+		}
+		if ok {
 			continue
 		}
-		sig := "misplaced-redo:" + f.sig
-		l := simulate(c, r, tokens[r], modeLeak)
-		if sameCalls(l.Calls, obs[r].Calls) {
-			// root cause (chain.go RunReceiverFilter + downstream.go receiverFilterStatusHandler): the chain keeps its
-			// cursor for every re-match/re-choose status, the proxy re-enters only for the honoured phase
-			sig = "misplaced-redo/cursor-kept:next-phase-starts-at-the-requesting-filter"
+		sig := "misplaced-redo:" + first.sig
+		for _, l := range variants(modeLeak) {
+			if sameCalls(l.Calls, obs[r].Calls) {
+				// root cause (chain.go RunReceiverFilter + downstream.go receiverFilterStatusHandler): the chain keeps its
+				// cursor for every re-match/re-choose status, the proxy re-enters only for the honoured phase
+				sig = "misplaced-redo/cursor-kept:next-phase-starts-at-the-requesting-filter"
+			}
 		}
-		return &failure{sig, "a re-match/re-choose verdict in a phase that does not honour it: neither reading (counts as continue / ends the pass) explains what happened; under both the filters of the following phases run from the first one\n" + f.msg}
+		return &failure{sig, "a re-match/re-choose verdict in a phase that does not honour it: neither reading (counts as continue / ends the pass) explains what happened; under both the filters of the following phases run from the first one\n" + first.msg}
 	}
 	return nil
 }
@@ -328,8 +369,10 @@ func execute(t ev.TB, c *chainCase) ([]string, []observed) {
 	}
 
 	delays := map[string]time.Duration{}
+	retryFirst := map[string]bool{}
 	for r, rq := range c.Reqs {
 		delays[tokens[r]] = time.Duration(rq.UpDelayUs) * time.Microsecond
+		retryFirst[tokens[r]] = rq.UpRetry && c.RetryOn
 	}
 	var up *mesh.Upstream
 	func() {
@@ -339,7 +382,17 @@ func execute(t ev.TB, c *chainCase) ([]string, []observed) {
 				inconclusive(t, c, "mesh.NewUpstream: %v", x)
 			}
 		}()
+		var amu sync.Mutex
+		attempts := map[string]int{}
 		up = mesh.NewUpstream(c.Proto, func(r *mesh.Req) mesh.Action {
+			amu.Lock()
+			attempts[r.Token]++
+			n := attempts[r.Token]
+			amu.Unlock()
+			if n == 1 && retryFirst[r.Token] {
+				return mesh.Action{Kind: "reply", Delay: delays[r.Token], Status: 503,
+					Header: [][2]string{{mesh.TokenHeader, r.Token}, {upHdr, r.Token}}, Body: []byte("up1:" + r.Token)}
+			}
 			return mesh.Action{Kind: "reply", Delay: delays[r.Token], Status: map[string]int{"Http1": 200, "bolt": 0}[c.Proto],
 				Header: [][2]string{{mesh.TokenHeader, r.Token}, {upHdr, r.Token}}, Body: []byte("up:" + r.Token)}
 		})
